@@ -190,7 +190,7 @@ struct Case {
 	else if (!eq_) c.fail(fn, icls, acls, "wrong-result", std::string(desc) + " on " + c.where() + ": " + k.diff()); } while (0)
 
 // ------------------------------------------------------------------ path counters (vacuity)
-struct Paths { uint64_t nontrivial, beyond_first, tok_comment_cross, tok_newline_cross, tok_empty_in_comment, zbase_unreadable, zbase_newline, trim_cross, quote_cross, read_cross, argv_multi, array_args, memcpy_both, memcpy_partial, append_multi, append_fail_late, append_fail_reloc, qget_two, with_empty, inline_form, list_form; };
+struct Paths { uint64_t nontrivial, beyond_first, tok_comment_cross, tok_newline_cross, tok_empty_in_comment, zbase_unreadable, zbase_newline, trim_cross, quote_cross, read_cross, argv_multi, array_args, memcpy_both, memcpy_partial, append_multi, append_fail_late, append_fail_reloc, qget_two, qget_cross, qget_atwrap, qget_novec_ok, qget_cxx_novec, with_empty, inline_form, list_form; };
 static Paths P;
 
 // ------------------------------------------------------------------ search functions on iovec lists
@@ -735,8 +735,13 @@ static void body_qget(Run &r, const std::string &job, Ctx &x)
 	}
 	if (r.replaying) r.note("queue max=%zu off=%zu len=%zu content %s", max, off, len, show(s, len).c_str());
 	asan_error();
+	const size_t seg1 = wraps ? max - off : len;     // size of the first (pre-wrap) segment of the stored queue
 	for (size_t qo = 0; qo <= len + 1; ++qo) for (size_t take = 0; take <= len + 1; ++take) for (int withvec = 1; withvec >= 0; --withvec) {
 		std::string res[2]; int rets[2];
+		const bool valid = qo <= len && take <= len - qo;
+		const bool atwrap = wraps && qo == seg1;
+		std::string acls = take == 0 ? "take=0" : (qo + take > len ? "beyond-content" : (wraps && qo < seg1 && qo + take > seg1 ? "crossing-wrap" : (atwrap ? "at-wrap-point" : "in-segment")));
+		std::string desc = fmt("mpt_message_get(off=%zu,take=%zu,%s) on queue(max=%zu,off=%zu,len=%zu)", qo, take, withvec ? "vec" : "NULL", max, off, len);
 		for (int i = 0; i < 2; ++i) {
 			mpt::message m; struct iovec *vec = withvec ? (struct iovec *) malloc(sizeof *vec) : 0;
 			if (vec) { vec->iov_base = 0; vec->iov_len = 0; }
@@ -751,19 +756,59 @@ static void body_qget(Run &r, const std::string &job, Ctx &x)
 				k.num((int64_t) got); k.bytes(d, take); free(d);
 			}
 			res[i] = k.blob();
+			// result shape: one piece exactly when the requested range lies inside one storage segment (so no iovec is
+			// needed then), two non-empty pieces only when it really crosses the wrap, never an empty first piece
+			if (valid) {
+				const bool crossing = i && wraps && qo < seg1 && qo + take > seg1;
+				const char *which = i ? "stored queue" : "unwrapped copy";
+				std::string shape;
+				if (ret >= 0) shape = fmt("returns %d, msg.used=%zu, clen=%zu%s", ret, m.used, m.clen, m.clen == 1 && m.cont ? fmt(", cont.iov_len=%zu", m.cont->iov_len).c_str() : "");
+				else shape = fmt("returns %d", ret);
+				bool ok;
+				if (crossing) {
+					++P.qget_cross;
+					if (!withvec) { ok = ret == -3; if (ok) r.count("qget_refused_without_vec(range crosses the wrap: documented, not flagged)"); }
+					else ok = ret == 1 && m.clen == 1 && m.used == seg1 - qo && m.cont == vec && vec->iov_len == take - m.used && m.used && vec->iov_len;
+				} else {
+					if (i && atwrap && take) ++P.qget_atwrap;
+					if (!withvec && i && wraps) ++P.qget_novec_ok;
+					ok = ret == 0 && m.used == take && m.clen == 0;
+				}
+				if (!ok) c.fail("mpt_message_get", i ? (wraps ? "wrapped" : "linear") : "unwrapped-copy", acls, "wrong-shape",
+				                desc + ": " + which + " " + shape + "; expected " + (crossing ? (withvec ? fmt("1 with used=%zu and cont.iov_len=%zu", seg1 - qo, take - (seg1 - qo)) : std::string("-3 (two pieces need an iovec)")) : fmt("0 with used=%zu and no continuation (range lies in one segment)", take)));
+			}
 			free(vec);
 		}
-		std::string acls = take == 0 ? "take=0" : (qo + take > len ? "beyond-content" : (wraps && qo < max - off && qo + take > max - off ? "crossing-wrap" : "in-segment"));
-		std::string desc = fmt("mpt_message_get(off=%zu,take=%zu,%s) on queue(max=%zu,off=%zu,len=%zu)", qo, take, withvec ? "vec" : "NULL", max, off, len);
 		if (asan_error()) c.fail("mpt_message_get", wraps ? "wrapped" : "", acls, "asan", desc + ": access outside the queue storage (AddressSanitizer)");
 		else if (res[0] != res[1]) {
-			if (!withvec && rets[1] == -3 && rets[0] >= 0) r.count("qget_refused_without_vec(documented, not flagged)");
+			if (!withvec && rets[1] == -3 && rets[0] >= 0) { /* judged by the shape rule above */ }
 			else c.fail("mpt_message_get", wraps ? "wrapped" : "", acls, "wrong-result", desc + ": stored queue gives {" + Sink::decode((const uint8_t *) res[1].data(), res[1].size()) + "}, same content unwrapped gives {" + Sink::decode((const uint8_t *) res[0].data(), res[0].size()) + "}");
+		}
+		// C++ front end: decode_queue::current_message() without / with continuation vector on the same state
+		{
+			r.hint("decode_queue::current_message");
+			const bool crossing = wraps && qo < seg1 && qo + take > seg1;
+			mpt::decode_queue dq(0);
+			dq.base = q[1].base; dq.max = q[1].max; dq.len = q[1].len; dq.off = q[1].off;
+			dq._state.data.pos = qo; dq._state.data.msg = (ssize_t) take;
+			mpt::message m; struct iovec *vec = withvec ? (struct iovec *) malloc(sizeof *vec) : 0;
+			bool got = withvec ? dq.current_message(m, vec) : dq.current_message(m);
+			++c.evals;
+			bool want = valid && (withvec || !crossing);
+			bool shape_ok = !got || (crossing ? (m.clen == 1 && m.used == seg1 - qo && m.used + vec->iov_len == take) : (m.used == take && m.clen == 0));
+			if (got && !crossing && !withvec && wraps) ++P.qget_cxx_novec;
+			if (asan_error()) c.fail("decode_queue::current_message", wraps ? "wrapped" : "linear", acls, "asan", desc + " via decode_queue: access outside the queue storage (AddressSanitizer)");
+			else if (got != want || !shape_ok)
+				c.fail("decode_queue::current_message", wraps ? "wrapped" : "linear", acls, got != want ? "wrong-result" : "wrong-shape",
+				       fmt("decode_queue(max=%zu,off=%zu,len=%zu; message pos=%zu,len=%zu).current_message(msg%s) gives %s (used=%zu, clen=%zu), expected %s%s", max, off, len, qo, take, withvec ? ", cont" : "", got ? "true" : "false", m.used, m.clen, want ? "true" : "false", want ? (crossing ? " in two pieces" : " in one piece") : ""));
+			free(vec);
+			dq.base = 0; dq.max = dq.len = dq.off = 0;
+			r.hint("mpt_message_get");
 		}
 	}
 	free(st[0]); free(st[1]);
 	r.states += 1; if (wraps) ++P.nontrivial;
-	if (max == 5 && off == 3 && len == 4) r.sample("qget: queue(max=5,off=3,len=4 wrapped) x all (offset,take) in 0..len+1, message read back, vs the same content stored at off=0");
+	if (max == 5 && off == 3 && len == 4) r.sample("qget: queue(max=5,off=3,len=4 wrapped) x all (offset,take) in 0..len+1, message read back, vs the same content stored at off=0; result shape (one piece inside a segment, two only across the wrap); decode_queue::current_message with/without cont");
 	r.transitions += c.evals;
 }
 
@@ -784,7 +829,7 @@ void mc_explore(Run &r, const std::string &job)
 	const char *req[] = {"nontrivial", "cases_with_zero_length_fragment", "form_inline_first_part", "form_pure_iovec_list", "search_hit_beyond_first_fragment",
 	                     "memtok_comment_started_in_earlier_fragment", "memtok_comment_ended_by_newline_in_later_fragment", "memtok_zero_length_fragment_inside_comment", "empty_fragment_base_unreadable", "empty_fragment_base_foreign_newline", "argv_space_at_fragment_end", "argv_quoted_input_fragmented", "argv_iterated_more_than_one_argument",
 	                     "array_message_more_than_one_argument", "read_crossing_fragment_boundary", "memcpy_source_and_target_fragmented", "memcpy_open_length_partial",
-	                     "append_multi_fragment", "append_fails_after_leading_fragments_went_in", "append_fails_after_buffer_was_relocated", "qget_two_part_message"};
+	                     "append_multi_fragment", "append_fails_after_leading_fragments_went_in", "append_fails_after_buffer_was_relocated", "qget_two_part_message", "qget_range_crossing_wrap", "qget_offset_exactly_at_wrap_point", "qget_wrapped_one_piece_without_vec", "decode_queue_current_message_wrapped_one_piece_without_cont"};
 	for (const char *q : req) r.require(q);
 	dfs(r, [&](Ctx &x) { body(r, job, x); });
 	r.count("nontrivial", P.nontrivial); r.count("cases_with_zero_length_fragment", P.with_empty);
@@ -796,7 +841,8 @@ void mc_explore(Run &r, const std::string &job)
 	r.count("read_crossing_fragment_boundary", P.read_cross);
 	r.count("memcpy_source_and_target_fragmented", P.memcpy_both); r.count("memcpy_open_length_partial", P.memcpy_partial);
 	r.count("append_multi_fragment", P.append_multi); r.count("append_fails_after_leading_fragments_went_in", P.append_fail_late); r.count("append_fails_after_buffer_was_relocated", P.append_fail_reloc);
- r.count("qget_two_part_message", P.qget_two);
+ r.count("qget_two_part_message", P.qget_two); r.count("qget_range_crossing_wrap", P.qget_cross); r.count("qget_offset_exactly_at_wrap_point", P.qget_atwrap);
+	r.count("qget_wrapped_one_piece_without_vec", P.qget_novec_ok); r.count("decode_queue_current_message_wrapped_one_piece_without_cont", P.qget_cxx_novec);
 }
 
 void mc_replay(Run &r, const std::string &job, const Vec &v)
